@@ -1,13 +1,15 @@
 #!/bin/bash
-# tools_seeded.sh <patch.diff> <tier> <check ids...>: apply a seeded change to /repo, run the checks, undo it.
+# tools_seeded.sh <patch.diff> <tier> <check ids...>: apply a seeded change in a scratch worktree of /repo HEAD, run the checks
+# against that worktree (VERIF_REPO), remove it. /repo itself is not touched.
 patch=$1; tier=$2; shift 2
-cd /repo || exit 2
-if [ -n "$(git status --porcelain --untracked-files=no)" ]; then echo "/repo has uncommitted changes"; exit 2; fi
-git apply "$patch" || { echo "patch does not apply"; exit 2; }
-go build ./... || { echo "does not build"; git checkout -- .; exit 2; }
+wt=/tmp/seedwt-$$
+git -C /repo worktree add -q --detach $wt HEAD || exit 2
+( cd $wt && git apply "$patch" ) || { echo "patch does not apply"; git -C /repo worktree remove --force $wt; exit 2; }
+( cd $wt && GOFLAGS=-mod=mod GOPROXY=off GOSUMDB=off GOTOOLCHAIN=local go build ./... ) || { echo "does not build"; git -C /repo worktree remove --force $wt; exit 2; }
 for id in "$@"; do
-  out=$(cd /verif && VERIF_SEED=${VERIF_SEED:-1} ./check $id $tier 2>&1)
+  out=$(cd /verif && VERIF_REPO=$wt VERIF_SEED=${VERIF_SEED:-1} ./check $id $tier 2>&1)
   rc=$?
-  echo "== $id $tier rc=$rc: $(echo "$out" | grep -E '^VIOLATION|^  key|^OK|MACHINERY' | head -6 | tr '\n' ' ' | cut -c1-400)"
+  echo "== $id $tier rc=$rc: $(echo "$out" | grep -E '^VIOLATION|^  key|^OK|MACHINERY|check:' | head -6 | tr '\n' ' ' | cut -c1-400)"
 done
-git -C /repo checkout -- .
+git -C /repo worktree remove --force $wt
+rm -f /verif/harness/go.alt_tmp_seedwt* /verif/bin/vcheck-alt_tmp_seedwt*
